@@ -396,6 +396,15 @@ func (p *parser) postfix() Expr {
 		case p.isOp("("):
 			p.next()
 			var args []Expr
+			if id, ok := e.(*EIdent); ok && id.Name == "mk" {
+				args = append(args, &EType{p.typeExpr()})
+				for p.accept(",") {
+					args = append(args, p.expr())
+				}
+				p.expect(")")
+				e = &ECall{e, args}
+				continue
+			}
 			if id, ok := e.(*EIdent); ok && (id.Name == "is" || id.Name == "as") {
 				args = append(args, p.expr())
 				p.expect(",")
@@ -502,6 +511,7 @@ type UfSpec struct {
 }
 
 type SpecDB struct {
+	Globals map[string]*GhostField // ghost globals: name -> map[ref]V
 	Ufs    map[string]*UfSpec
 	Funcs  map[string]*FuncSpec
 	Preds  map[string]*PredSpec
@@ -524,7 +534,7 @@ var clauseKinds = map[string]bool{"requires": true, "ensures": true, "panics_if"
 
 // loadSpecs reads every verif_contracts*.go file of the library packages.
 func loadSpecs(repo string, tags string) (*SpecDB, error) {
-	db := &SpecDB{Ufs: map[string]*UfSpec{}, Funcs: map[string]*FuncSpec{}, Preds: map[string]*PredSpec{}, Ghosts: map[string]*GhostField{}, Lemmas: map[string]*LemmaSpec{}, Consts: map[string]string{}}
+	db := &SpecDB{Globals: map[string]*GhostField{}, Ufs: map[string]*UfSpec{}, Funcs: map[string]*FuncSpec{}, Preds: map[string]*PredSpec{}, Ghosts: map[string]*GhostField{}, Lemmas: map[string]*LemmaSpec{}, Consts: map[string]string{}}
 	tiny := false
 	for _, t := range strings.Split(tags, ",") {
 		if t == "tiny" {
@@ -636,6 +646,17 @@ func (db *SpecDB) loadFile(path, pkg string, tiny bool) error {
 			}
 			pp := &parser{toks: toks, src: hs}
 			db.Ufs[strings.TrimSpace(hs[:i])] = &UfSpec{Name: strings.TrimSpace(hs[:i]), Params: bs, Ret: pp.typeExpr(), Pkg: pkg}
+		case "ghostglobal":
+			f := strings.Fields(head)
+			if len(f) < 3 {
+				return fmt.Errorf("%s:%d: ghostglobal name type", path, it.headLine)
+			}
+			toks, err := lex(strings.Join(f[2:], " "))
+			if err != nil {
+				return err
+			}
+			pp := &parser{toks: toks, src: head}
+			db.Globals[f[1]] = &GhostField{Pkg: pkg, Name: f[1], T: pp.typeExpr()}
 		case "ghostfield":
 			f := strings.Fields(head)
 			if len(f) < 3 {
